@@ -337,7 +337,7 @@ def run(prop, tier):
     rep = Report(prop, tier)
     rep.cov["rule"] = ("(a) captured lists enumerated by TLC inside MC_Helpers.tla (grammar of logging programs: any/innermost open "
                        "action starts a child, logs, finishes ok/failed, reserves a position, a reserved position is continued as a "
-                       "remote sub-task; tasks interleave; every prefix of 5 hand-written lists with two-digit positions etc.), each "
+                       "remote sub-task; tasks interleave; every prefix of 6 hand-written lists with two-digit positions etc.), each "
                        "given to the real helpers and parser and compared with the specification's printed predictions; (b) lists "
                        "captured by a MemoryLogger from seeded random programs on the real library, real answers judged by TLC "
                        "(Trace_Helpers.tla). distinct = distinct captured list; non-trivial = contains at least one action with a child")
